@@ -101,7 +101,8 @@ def run(tier, runner):
     r_same.require(2, 'byte copies issued by the pre-C++17 emulations')
     r_adv = config.advance(pre17)
     w = detection_witnesses()
-    cfgs = [(s, True, False) for s in stds] + [(s, False, False) for s in stds]
+    wstds = [11, 14, 17, 20]                 # the witnesses are one -fsyntax-only unit per configuration: every standard, also in the quick tier
+    cfgs = [(s, True, False) for s in wstds] + [(s, False, False) for s in wstds]
     r_w = witness.run_witnesses(runner, w, cfgs, ['clang++'] if tier == 'quick' else ['clang++', 'g++'],
                                 {'DETECT': 'features a configuration does not offer are absent at compile time (detection idiom)',
                                  'CONST': 'compile-time constants with separate pre-C++14/17 source have the same value in every configuration'})
